@@ -39,6 +39,7 @@ fn checks() -> Vec<Check> {
         sim::c06::check(),
         sim::c07::check(),
         sim::c10::check(),
+        sim::c20::check(),
     ]
 }
 
